@@ -728,6 +728,10 @@ static void overflowProbe ()
     bool vis = ft.isVisible (Vec3<float> (3000.f, -2000.f, -1000.f)); // well inside: 390 < 1000 < 3.9e8, x*n/1000 = 1170 in [1154, 6716], y*n/1000 = -780 in [-4814, 944]
     hits["info:float_far_plane_overflow:normal_is_zero"]                 = degenerate ? 1 : 0;
     hits["info:float_far_plane_overflow:interior_point_reported_invisible"] = vis ? 0 : 1;
+    // one machine-readable line for the check (obligation `planesM:float:far-plane-normal-overflow`)
+    printf ("C16PROBE far-plane frustum=Frustumf(390.092346,390092352,1154.62439,6716.17383,944.499451,-4814.44336,persp) camera=identity "
+            "planes(p,M)[5].normal=(%.9g,%.9g,%.9g) distance=%.9g point=(3000,-2000,-1000) isVisible=%d expected_normal=(0,0,-1) expected_distance=390092352 expected_isVisible=1\n",
+            (double) p[5].normal.x, (double) p[5].normal.y, (double) p[5].normal.z, (double) p[5].distance, (int) vis);
 }
 
 int main (int argc, char** argv)
